@@ -57,6 +57,11 @@ func (runInfo *runInfoStruct) invokeLetMemberExpr(expr *ast.MemberExpr) {
 	}
 
 	if env, ok := runInfo.rv.Interface().(*env.Env); ok {
+		if env == nil {
+			runInfo.err = newStringError(expr, "module is nil")
+			runInfo.rv = nilValue
+			return
+		}
 		runInfo.err = env.SetValue(expr.Name, value)
 		if runInfo.err != nil {
 			runInfo.err = newError(expr, runInfo.err)
